@@ -42,6 +42,14 @@ class _Return(Exception):
         self.v = v
 
 
+class _Break(Exception):
+    pass
+
+
+class _Continue(Exception):
+    pass
+
+
 class Evaluator:
     def __init__(self, methods: Optional[Dict[str, Any]] = None, max_steps=20000, functions=None, lookup=None,
                  natives=None, modules=None):
@@ -108,11 +116,39 @@ class Evaluator:
             base.__dict__[st.target.attr] = self.binop(st.op, base.__dict__[st.target.attr], self.expr(st.value, env))
             return
         if isinstance(st, ast.For):
+            broke = False
             for item in self.iterate(self.expr(st.iter, env)):
                 self.assign(st.target, item, env)
-                self.block(st.body, env)         # break/continue unsupported
-            self.block(st.orelse, env)
+                try:
+                    self.block(st.body, env)
+                except _Break:
+                    broke = True
+                    break
+                except _Continue:
+                    continue
+            if not broke:
+                self.block(st.orelse, env)
             return
+        if isinstance(st, ast.While):
+            broke = False
+            while self.truth(self.expr(st.test, env)):
+                self.steps += 1
+                if self.steps > self.max_steps:
+                    raise Unsupported("step budget exceeded")
+                try:
+                    self.block(st.body, env)
+                except _Break:
+                    broke = True
+                    break
+                except _Continue:
+                    continue
+            if not broke:
+                self.block(st.orelse, env)
+            return
+        if isinstance(st, ast.Break):
+            raise _Break()
+        if isinstance(st, ast.Continue):
+            raise _Continue()
         raise Unsupported(f"statement {type(st).__name__}")
 
     def assign(self, t, v, env):
@@ -458,6 +494,8 @@ class Evaluator:
             raise Unsupported(f"class attribute call {cname}.{f.attr}")
         if isinstance(f, ast.Name) and f.id not in env and callable(self.globals.get(f.id)):
             return self.globals[f.id](*args, **kwargs)
+        if isinstance(f, ast.Name) and f.id in env and callable(env[f.id]) and not isinstance(env[f.id], (Obj, ClassRef)):
+            return env[f.id](*args, **kwargs)       # a python callable bound by the calling rule (stub)
         if isinstance(f, ast.Name):
             n = f.id
             if n in self.functions and self._call_depth < 3:
@@ -511,6 +549,12 @@ class Evaluator:
                 return out
             if n in ("tuple", "list"):
                 return (tuple if n == "tuple" else list)(args[0])
+            if n == "range" and args and all(isinstance(a, int) for a in args) and not kwargs:
+                return range(*args)
+            if n == "enumerate" and len(args) == 1:
+                return list(enumerate(self.iterate(args[0]), **kwargs))
+            if n == "str" and len(args) == 1 and not isinstance(args[0], (Obj, ClassRef)):
+                return str(args[0])
             raise Unsupported(f"call {n}")
         if isinstance(f, ast.Attribute):
             if isinstance(f.value, ast.Name) and f.value.id in self.modules and f.value.id not in env:
